@@ -881,6 +881,8 @@ fn alphabet(env: &Env) -> Vec<String> {
     // domain options
     for o in [
         "domain=x.com", "from=x.com", "domain=~x.com", "domain=x.com|~y.com", "domain=x.com|y.com", "domain=~x.com|~y.com", "domain=caf\u{e9}.fr", "domain=~caf\u{e9}.fr",
+        // the option given twice
+        "domain=x.com,domain=~y.com", "domain=~y.com,domain=x.com", "domain=x.com,domain=y.com",
         // regex-valued entries (dropped from the parsed rule, still present in the rule text)
         "domain=x.com|~/y[0-9]+\\.com/", "domain=/^x[0-9]/|~y.com", "domain=/^x[0-9]/",
         "domain=xn--caf-dma.fr", "domain=X.COM", "from=x.com,domain=y.com", "domain=x.com,image", "image,domain=x.com", "domain=x.com|",
